@@ -162,9 +162,12 @@ func slotsJSON(slots [][3]string) []interface{} {
 }
 
 // genHistory runs one history and emits one case line.
-func genHistory(c *ctx, prof histProfile, ndsRequired bool) {
+func genHistory(c *ctx, prof histProfile, ndsRequired bool, ldsNotRequired ...bool) {
 	r := c.rng
-	w, err := newWorld(worldOpts{ndsNotRequired: !ndsRequired, fetchTimeout: 3 * time.Millisecond})
+	// (a third configuration: the inbound listener is not subscribed at start-up - LDSNotRequired; the listener type is then
+	// subscribed by the first listener lookup only, and "virtualInbound" is a name like any other: stored only if asked for)
+	noLds := len(ldsNotRequired) > 0 && ldsNotRequired[0]
+	w, err := newWorld(worldOpts{ndsNotRequired: !ndsRequired, ldsNotRequired: noLds, fetchTimeout: 3 * time.Millisecond})
 	if err != nil {
 		fmt.Println("hist: world:", err)
 		return
@@ -176,7 +179,11 @@ func genHistory(c *ctx, prof histProfile, ndsRequired bool) {
 	if ndsRequired {
 		pre = append(pre, obj{"o": "startup-nds"})
 	}
-	pre = append(pre, obj{"o": "startup-lds", "stamp": inboundStamp})
+	if !noLds {
+		pre = append(pre, obj{"o": "startup-lds", "stamp": inboundStamp})
+	} else {
+		c.count("config=lds-not-required", 1)
+	}
 	obs0 := h.observe(0)
 	version := 0
 	curTable := []kv{}
@@ -186,7 +193,7 @@ func genHistory(c *ctx, prof histProfile, ndsRequired bool) {
 		anys  []*anypb.Any
 	}
 	lastPush := map[string]pushed{}
-	ever := map[string]bool{"lds": true} // the types subscribed so far, as the script knows them (start-up, lookups)
+	ever := map[string]bool{"lds": !noLds} // the types subscribed so far, as the script knows them (start-up, lookups)
 	for i := 0; i < prof.steps && !h.hung; i++ {
 		closed := w.m.VerifClosed()
 		x := r.intn(100)
@@ -771,7 +778,7 @@ func outage(c *ctx, budgets, burst int) {
 
 func runHistories(c *ctx, prof histProfile, n int) {
 	for i := 0; i < n && !c.expired(); i++ {
-		genHistory(c, prof, i%3 != 2)
+		genHistory(c, prof, i%3 != 2, i%7 == 6)
 	}
 }
 
